@@ -71,6 +71,14 @@ CHECKS["C17"] = ("E4", "deterministic simulation with crash-point enumeration: s
   "fault_enumeration",
   "Fault-free part (sampled histories): retained files hold a suffix of the accepted items unchanged, at most max_files files, every query answer equals the matching retained items in order without duplicates (line-limited queries: a long-enough prefix). Crash part (exhaustive per generated final state): for each byte offset of the last data file and of its index file: no error, no panic, only written items unchanged and in order, and every item whose line and reachable index entry lie wholly before the cut is returned.",
   "Trusted: the harness's line parser and index parser (independent of the implementation's), tmpfs as the disk. Truncation is the only crash model (no reordering of writes between the two files).", "DESIGN.md §3 C17")
+CHECKS["C18"] = ("E3", "deterministic simulation with fault injection inside a testing/synctest bubble (go1.26.8): seeded payload histories (wire JSON, null / wrongly typed elements, truncation at a drawn byte, empty, redelivery) to handlers wired to the real rule managers; a real RefreshableFileDataSource whose fsnotify watcher is a stub fed by the simulator (events delayed, duplicated, coalesced; remove / rename), quiescence after every delivered event",
+  "exploration",
+  "Handle never panics out; undecodable => error and previous rules stay; decodable => exactly its valid rules reported field for field (wire round trip incl. hotspot specific items) and governing probe traffic; empty => cleared; identical redelivery => no change incl. controller state; file source: after each delivered event the managers equal what the file held at that moment (previous rules if undecodable), cleared after remove / rename. Sampling of histories; event order per file is FIFO.",
+  "Trusted: stub watcher (verif/sim/simfsnotify) has the surface the datasource uses; synctest quiescence; rule-set model shared with C13. One datasource per module.", "DESIGN.md §3 C18")
+CHECKS["C20"] = ("E3", "deterministic simulation inside a testing/synctest bubble (go1.26.8): seeded per-node success/failure histories and fake-time advances; the outlier recycler / retryer worker goroutines, their channels and time.AfterFunc timers are real and run on the bubble's fake clock with quiescence after every step; per-node reference breakers and a recycle model as oracle",
+  "exploration",
+  "At every request: FilterNodes without duplicates, subset of the nodes the reference breaker rejects, size <= floor(k*n/den) in integers; HalfOpenNodes == nodes in passive half-open probing; nodes that completed a request successfully since being scheduled for recycling stay known; no unknown node appears. Sampling of configurations and histories.",
+  "Trusted: reference breaker model (shared with C03), synctest fake clock, scripted RecoveryCheckFunc instead of TCP dial; overlay helper that (re)starts the workers inside the bubble and the renamed init functions.", "DESIGN.md §3 C20")
 NOT_YET = {}
 props = [json.loads(l) for l in open(os.path.join(HERE, 'properties.jsonl'))]
 checks, na = [], []
@@ -104,6 +112,8 @@ m = {
  },
  "engines": [
    {"name": "E1", "path": "/verif/sim, /verif/harness", "serves_properties": [c for c in CHECKS if CHECKS[c][0].startswith("E1")], "kind_free_text": "single simulated caller, discrete-event virtual clock (util.Clock seam), seeded operation and fault sequences, reference-model oracles"},
+   {"name": "E3", "path": "/verif/cmd/simbubble", "serves_properties": [c for c in CHECKS if CHECKS[c][0] == "E3"], "kind_free_text": "testing/synctest bubble (go1.26.8 test binary): fake clock for real timers, quiescence detection for real background goroutines; stub fsnotify watcher"},
+   {"name": "E4", "path": "/verif/props/c17", "serves_properties": [c for c in CHECKS if CHECKS[c][0] == "E4"], "kind_free_text": "real files on tmpfs under the virtual clock; crash = truncation at every byte offset of the last data / index file"},
    {"name": "E2", "path": "/verif/sim/sched.go", "serves_properties": [c for c in CHECKS if "E2" in CHECKS[c][0]], "kind_free_text": "cooperative seeded scheduler: k simulated callers, one runs at a time, a yield point before every atomic / lock operation (overlay import substitution); random-walk and PCT policies; literal schedule replay"},
  ],
  "checks": checks,
